@@ -209,8 +209,10 @@ def _ms(A):
     return [[fstr(float(x)) for x in row] for row in np.asarray(A)]
 
 
-def run(kernel="iwls", family="gauss2", step=0.7, chains=2, seed=0, n_iter=40):
+def run(kernel="iwls", family="gauss2", step=0.7, chains=2, seed=0, n_iter=40, init=None):
     fam = Family(family)
+    if init is not None:      # another start value for the (only) block
+        fam.init = {fam.keys[0]: jnp.asarray(init, jnp.float32)}
     interface = gs.DataclassInterface(fam.logp) if family.endswith("_dc") else gs.DictInterface(fam.logp)
     if kernel == "rw":
         inner = gs.RWKernel(fam.keys, initial_step_size=step)
@@ -275,6 +277,10 @@ def run(kernel="iwls", family="gauss2", step=0.7, chains=2, seed=0, n_iter=40):
             s = float(e["pre"][0])
             ev.append({"ev": "moved", "moved": bool(e["moved"]), "before": _vs(x), "after": _vs(xa), "acc": fstr(e["acc"]),
                        "code": int(e["code"])})
+            if kernel == "iwls" and family == "student_t":
+                # where the information is not positive definite there is no Gaussian proposal to draw from
+                Fb = (fam.leaves(x, ctx) if other else fam.leaves(x))[2]
+                ev[-1]["fwd_defined"] = bool(np.all(np.linalg.eigvalsh(np.asarray(Fb, np.float64)) > 0))
             if e["moved"]:
                 xp = xa
             elif replay is not None:
@@ -318,7 +324,7 @@ def run(kernel="iwls", family="gauss2", step=0.7, chains=2, seed=0, n_iter=40):
                                # the density is finite everywhere and every proposal is a finite point
                                "regular": family not in ("gamma_rw", "student_t"),
                                "scenario": {"kernel": kernel, "family": family, "step": step, "chains": chains,
-                                            "seed": seed, "n_iter": n_iter}},
+                                            "seed": seed, "n_iter": n_iter, "init": init}},
                        "ev": ev})
     return traces
 
@@ -347,6 +353,8 @@ def jobs(quick=True):
     js.append(dict(kernel="iwls", family="gauss2_dc", step=0.7, seed=len(js)))
     # a target that is not log-concave: proposals land where the information is indefinite (no backward density)
     js.append(dict(kernel="iwls", family="student_t", step=1.2, seed=len(js), chains=4, n_iter=80))
+    # ... and chains that *start* where it is indefinite: no forward density, the chain must stay where it is
+    js.append(dict(kernel="iwls", family="student_t", step=1.2, seed=len(js), chains=4, n_iter=30, init=[0.5]))
     js.append(dict(kernel="rw", family="gauss2_dc", step=0.7, seed=len(js)))
     # the block's density depends on a quantity another kernel of the sequence moves between the transitions
     for s in steps:
